@@ -642,6 +642,38 @@ theorem C09_check_sound (cfg : Cfg) (wf : cfg.WF) :
     · rintro ⟨hu, hc⟩
       exact C09_accepts_valid cfg wf hu hc
 
+/-! ## a failing factory -/
+
+/-- the rejections of the configuration take precedence (no factory is called for a rejected configuration); a factory
+error is returned exactly when the configuration is accepted and a component of the graph has a failing factory; without
+failing factories `buildWith` is `build` -/
+theorem C09_build_with_failing_factory (cfg : Cfg) (failCreate : Node → Bool) :
+    (∀ e, buildWith cfg failCreate = some (.build e) ↔ build cfg = some e) ∧
+    (buildWith cfg failCreate = some .create ↔
+      (build cfg = none ∧ ∃ n, n ∈ nodes cfg ∧ n.isComp = true ∧ failCreate n = true)) ∧
+    (buildWith cfg (fun _ => false) = (build cfg).map BuildErrW.build) := by
+  refine ⟨fun e => ?_, ?_, ?_⟩
+  · cases hb : build cfg with
+    | some e' => simp [buildWith, hb]
+    | none =>
+      simp only [buildWith, hb]
+      by_cases h : (nodes cfg).any (fun n => n.isComp && failCreate n) = true <;> simp [h]
+  · cases hb : build cfg with
+    | some e' => simp [buildWith, hb]
+    | none =>
+      simp only [buildWith, hb, true_and]
+      by_cases h : (nodes cfg).any (fun n => n.isComp && failCreate n) = true
+      · simp only [h, if_true, true_iff]
+        simp only [List.any_eq_true, Bool.and_eq_true] at h
+        obtain ⟨n, hn, h1, h2⟩ := h
+        exact ⟨n, hn, h1, h2⟩
+      · simp only [h]
+        constructor
+        · intro h'; cases h'
+        · rintro ⟨n, hn, h1, h2⟩
+          exact absurd (List.any_eq_true.mpr ⟨n, hn, by simp [h1, h2]⟩) h
+  · cases hb : build cfg <;> simp [buildWith, hb]
+
 /-! ## validation -/
 
 theorem nodup_of_hasDup_false : ∀ l : List CompId, hasDup l = false → l.Nodup := by
